@@ -109,7 +109,10 @@ def disconnectPlayerAtFrame (s : P2P) (now : Nat) (handle : Nat) (lastFrame : Fr
       let s := ep.handles.foldl (fun s h => s.setStatus h fun c => { c with disconnected := true }) s
       let remotes ← updEp s.remotes addr fun e => pure (e.disconnect now)
       let s := { s with remotes }
-      pure (if s.sync.currentFrame > lastFrame + 1 then { s with disconnectFrame := lastFrame + 1 } else s)
+      pure (if s.sync.currentFrame > lastFrame + 1 then
+        { s with disconnectFrame := if s.disconnectFrame == NULL_FRAME then lastFrame + 1
+                                    else min s.disconnectFrame (lastFrame + 1) }
+      else s)
     | some (.spectator addr) => do
       ensure ((findEp s.spectators addr).isSome) "disconnect_player_at_frame: no endpoint for address"
       let spectators ← updEp s.spectators addr fun e => pure (e.disconnect now)
